@@ -1193,7 +1193,7 @@ class Frame(registering.StoriedRegistrar):
             return
 
         if self.checkLoop(over):
-            raise excepting.ParameterError("Attaching would create loop", "frame", frame)
+            raise excepting.ParameterError("Attaching would create loop", "frame", over)
         else:
             self.detach()
             over.unders.append(self) #add to unders
